@@ -35,10 +35,14 @@ func (rs *rsaSigner) Sign(rand io.Reader, content []byte) ([]byte, error) {
 // entropy from rand.
 // The resulting signature should follow RFC 8152 section 8.
 func (rs *rsaSigner) SignDigest(rand io.Reader, digest []byte) ([]byte, error) {
-	return rs.key.Sign(rand, digest, &rsa.PSSOptions{
+	sig, err := rs.key.Sign(rand, digest, &rsa.PSSOptions{
 		SaltLength: rsa.PSSSaltLengthEqualsHash, // defined in RFC 8230 sec 2
 		Hash:       rs.alg.hashFunc(),
 	})
+	if err != nil {
+		return nil, err
+	}
+	return sig, nil
 }
 
 // rsaVerifier is a RSASSA-PSS based verifier with golang built-in keys.
